@@ -114,8 +114,10 @@ func c18ReadOrdinals(c *Ctx) {
 		"(*FilePages).Close": "the page reader is unusable after Close (chunk, section and buffers are dropped)",
 	}
 	r1, _ := reqStoreTo(p, ord)
+	r1.Strict, r1.Guard = true, p.LookupField("FilePages", "dec")
 	coWriteRule(c, rule, "page cursor of FilePages", cursor, r1, ord != nil, closeWhy, "the next encrypted page is authenticated with the AAD of another page ordinal and fails to decrypt (or a swapped page is accepted)")
 	r2, _ := reqStoreTo(p, pending)
+	r2.Strict = true
 	coWriteRule(c, rule, "data page ordinal of the decryption state", ord, r2, pending != nil, nil,
 		"after repositioning on a data page the reader still expects the dictionary page and derives the dictionary-page AAD for a data page")
 	c.Min(rule, 5)
